@@ -251,7 +251,7 @@ func (t *Tokenizer) tokenizeBuffer(buf []byte, last bool) error {
 			continue
 		case closeObject:
 			depth--
-			if depth < 0 || t.starts[depth] != objectStart {
+			if depth < 0 || t.starts[depth] != objectStart || (256 < len(t.mode) && t.mode[256] == 'v') { // no value after the colon
 				return t.newError(off, "unexpected object close")
 			}
 			if 256 < len(t.mode) && t.mode[256] == 'n' {
